@@ -1,7 +1,7 @@
 /-
-C16 — numba: a kernel-reducible equality on parse trees with its soundness, and the complete
-family of well-typed depth-2 trees (every parent class × every well-typed child representative ×
-every operand position) on which the numba round trip is decided in the kernel.
+C16 — numba: a kernel-reducible equality on parse trees with its soundness (used to evaluate the
+round trip on single trees: regression examples and counterexamples), and the family of
+comparisons nested directly under comparisons.
 -/
 import FfcxModel.LNodes.ParsePy
 namespace Ffcx.LNodes.Fmt
@@ -177,70 +177,13 @@ theorem PT.eqbC_sound : ∀ as bs : List (BinOp × PT), PT.eqbC as bs = true →
   | [], _ :: _, h => by simp [PT.eqbC] at h
   | _ :: _, [], h => by simp [PT.eqbC] at h
 end
-/-! ## all well-typed depth-2 trees over representative children (numba) -/
+/-! ## evaluation of the numba round trip on single trees -/
 
 def sx : Expr := .sym "x" .real
 def sy : Expr := .sym "y" .scalar
 def sz : Expr := .sym "z" .real
-def si : Expr := .sym "i" .int
-def sj : Expr := .sym "j" .int
-def sb : Expr := .sym "b" .bool
-def cnd1 : Expr := .bin .lt sx sz
-def cnd2 : Expr := .bin .ge sy sx
 
-/-- arithmetic children: one representative of every arithmetic expression class (and of the
-    literal shapes: positive, negative, exponent form, complex, negative int) -/
-def arithKids : List Expr := [
-  .litF (5 / 2) 0 false, .litF (-2) 0 false, .litF (1 / 100000) 0 false, .litF (-150000000000000000000) 0 false,
-  .litF (3 / 2) (-2) true, .litF 0 2 true, .litI 3, .litI (-1), .litI 0, sx, si,
-  .neg sx, .bin .add sx sy, .bin .sub sx sy, .bin .mul sx sy, .bin .div sx sy,
-  .sum [sx, sy, .litF 3 0 false], .sum [sx], .prod [sx, sy], .prod [sy],
-  .call "sqrt" .real [sx], .call "power" .scalar [sy, sx], .call "ln" .real [sx], .call "erf" .real [sx],
-  .idx "T" .real [si], .idx "U" .scalar [si, .litI 0], .cond cnd1 sx sy,
-  .call "bessel_j" .int [.litI 1, sx], .call "bessel_y" .int [.litI 0, sx],
-  .mi [si, sj] [3, 4] (.sum [.bin .mul (.litI 4) si, sj]), .mi [] [] (.litI 0)]
-
-/-- condition children -/
-def condKids : List Expr := [
-  sb, .not cnd1, .bin .eq sx sy, .bin .ne sx sy, .bin .lt sx sy, .bin .gt sx sy, .bin .le sx sy,
-  .bin .ge sx sy, .bin .and cnd1 cnd2, .bin .or cnd1 cnd2]
-
-def arithOps : List BinOp := [.add, .sub, .mul, .div]
 def cmpOps : List BinOp := [.eq, .ne, .lt, .gt, .le, .ge]
-def logicOps : List BinOp := [.and, .or]
-
-/-- every parent class × every well-typed child × every operand position -/
-def depth2WT : List Expr :=
-  arithKids.map .neg ++ condKids.map .not
-  ++ (arithOps ++ cmpOps).flatMap (fun op => arithKids.flatMap (fun k => [.bin op k sz, .bin op sz k]))
-  ++ logicOps.flatMap (fun op => condKids.flatMap (fun k => [.bin op k sb, .bin op sb k]))
-  ++ arithKids.flatMap (fun k => [.sum [k, sz, sz], .sum [sz, k, sz], .sum [sz, sz, k],
-        .prod [k, sz, sz], .prod [sz, k, sz], .prod [sz, sz, k],
-        .call "power" .real [k, sz], .call "power" .real [sz, k],
-        .idx "T" .real [k, sj], .idx "T" .real [si, k],
-        .cond sb k sz, .cond sb sz k])
-  ++ condKids.map (fun k => .cond k sz sz)
-  ++ [.idx "T" .real [.mi [si, sj] [3, 4] (.sum [.bin .mul (.litI 4) si, sj]), sj]]
-  ++ arithKids ++ condKids
-
-
-/-- the executable round-trip verdict with the kernel-reducible equality -/
-def pyOK (e : Expr) : Bool :=
-  WT .f64 e && (match parseExprPy (lexPyExpr (fmtExprPy e)) with
-    | some t => PT.eqb t (erasePy e)
-    | none => false)
-
-theorem pyOK_sound {e : Expr} (h : pyOK e = true) :
-    WT .f64 e = true ∧ parseExprPy (lexPyExpr (fmtExprPy e)) = some (erasePy e) := by
-  simp only [pyOK, Bool.and_eq_true] at h
-  refine ⟨h.1, ?_⟩
-  have h2 := h.2
-  split at h2
-  · rename_i t ht; rw [ht, PT.eqb_sound _ _ h2]
-  · simp at h2
-
-set_option maxRecDepth 100000 in
-theorem depth2WT_all_ok : depth2WT.all pyOK = true := by decide +kernel
 
 /-- ill-typed but constructible: every comparison directly under every comparison, both sides
     (Python would chain `a < b == c`; the formatter parenthesises the inner comparison) -/
@@ -248,18 +191,17 @@ def cmpNested : List Expr :=
   cmpOps.flatMap (fun op => cmpOps.flatMap (fun op2 =>
     [.bin op (.bin op2 sx sy) sz, .bin op sz (.bin op2 sx sy), .bin op (.bin op2 sx sy) (.bin op sz sx)]))
 
-def pyOKraw (e : Expr) : Bool :=
+/-- the numba text of `e` parses to the tree `t` (kernel-reducible verdict) -/
+def pyParsesTo (e : Expr) (t : PT) : Bool :=
   match parseExprPy (lexPyExpr (fmtExprPy e)) with
-  | some t => PT.eqb t (erasePy e)
+  | some u => PT.eqb u t
   | none => false
 
-theorem pyOKraw_sound {e : Expr} (h : pyOKraw e = true) :
-    parseExprPy (lexPyExpr (fmtExprPy e)) = some (erasePy e) := by
-  simp only [pyOKraw] at h
+theorem pyParsesTo_sound {e : Expr} {t : PT} (h : pyParsesTo e t = true) :
+    parseExprPy (lexPyExpr (fmtExprPy e)) = some t := by
+  simp only [pyParsesTo] at h
   split at h
-  · rename_i t ht; rw [ht, PT.eqb_sound _ _ h]
+  · rename_i u hu; rw [hu, PT.eqb_sound _ _ h]
   · simp at h
-
-theorem cmpNested_all_ok : cmpNested.all pyOKraw = true := by decide +kernel
 
 end Ffcx.LNodes.Fmt
